@@ -216,6 +216,7 @@ func Run(w *vt.W, c Case) {
 	case "allvalid":
 		ev["name"], ev["def"], ev["cased"], ev["w"] = c.Name, nz(c.Def), c.Cased, nz(c.W)
 		ev["ok"], ev["pos"], ev["qok"], ev["qpos"] = false, 0, false, 0
+		ev["wvalid"], ev["single"], ev["qsingle"] = []bool{}, []bool{}, []bool{}
 		guard(ev, func() {
 			a := builtin(c.Name)
 			if c.Name == "" {
@@ -236,6 +237,14 @@ func Run(w *vt.W, c Case) {
 			}
 			ev["ok"], ev["pos"] = a.AllValid(ls)
 			ev["qok"], ev["qpos"] = a.AllValidQLetter(qs)
+			// letter by letter: IsValid, and the two slice forms on the one-letter slice
+			wvalid, single, qsingle := make([]bool, len(ls)), make([]bool, len(ls)), make([]bool, len(ls))
+			for i := range ls {
+				wvalid[i] = a.IsValid(ls[i])
+				single[i], _ = a.AllValid(ls[i : i+1 : i+1])
+				qsingle[i], _ = a.AllValidQLetter(qs[i : i+1 : i+1])
+			}
+			ev["wvalid"], ev["single"], ev["qsingle"] = wvalid, single, qsingle
 		})
 	default:
 		vt.Fatal("unknown case kind %q", c.Kind)
